@@ -808,6 +808,63 @@ def first_call_probes(ctx: vlib.Ctx):
             ctx.not_shown("correspondence " + name, f"{len(bad)} probes: {cases[bad[0]][:1200]} || {json.dumps(descr[bad[0]], default=str)[:1500]}")
 
 
+def layered_probes(ctx: vlib.Ctx):
+    """Systematic: classes that have a default dialect of their own (Config.dialect = B) are called with dialects that set
+    every option B sets, to other values: the call dialect must win over B exactly as the twin's default dialect does
+    (option order call dialect > Config.dialect > Config > default_dialect, strategy sources likewise)."""
+    cases, descr = [], []
+    full = {"omit_none": False, "omit_default": False, "serialize_by_alias": True, "namedtuple_as_dict": True,
+            "no_copy_collections": "list", "int": "dict", "bytes": None, "str": True}
+    other = {"omit_none": True, "omit_default": True, "serialize_by_alias": False, "namedtuple_as_dict": False,
+             "no_copy_collections": "empty", "int": "strat", "bytes": None, "str": False}
+    base = {"omit_none": True, "omit_default": True, "serialize_by_alias": False, "namedtuple_as_dict": False,
+            "no_copy_collections": None, "int": "dict", "bytes": None, "str": False}
+    for mixin in (None, "DataClassMessagePackMixin"):
+        for lazy in (False, True):
+            cfg = {"flags": ["dialect"]}
+            spec = {"dialects": {"1": dict(full), "2": dict(other), "3": dict(base)}, "base_dialect": 3,
+                    "classes": {"Inner": {"base": None, "mixin": mixin, "fields": [["n", "opt"], ["w", "int"]], "config": dict(cfg)},
+                                "P": {"base": None, "mixin": mixin, "config": dict(cfg),
+                                      "fields": [["o", "opt"], ["i", "int"], ["a", "alias"], ["t", "nt"], ["l", "list"], ["s", "str"]]},
+                                "C": {"base": "P", "fields": [["c", "optstr"], ["cin", "inner"]], "config": None}},
+                    "order": ["Inner", "P", "C"], "flags": ["dialect"], "mixin": mixin, "lazy": lazy, "cfg_int": True}
+            pv = {"o": None, "i": 5, "a": 8, "t": [3, 4], "l": [1, 2], "s": "abc"}
+            cv = dict(pv, c=None, cin={"n": None, "w": 9})
+            dirs = ("to", "from") if mixin is None else ("to", "from", "mto", "mfrom")
+            ops = [["define", "Inner"], ["define", "P"], ["define", "C"]]
+            for d in (1, 2, None, 1):
+                for direction in dirs:
+                    ops.append(["call", "P", direction, d, dict(pv)])
+                    ops.append(["call", "C", direction, d, dict(cv)])
+            hr = HistoryRun(spec, ops)
+            try:
+                mm = hr.run()
+                ctx.count(("layered", mixin, lazy))
+                ctx.hist("layered_probes", f"{mixin or 'DataClassDictMixin'}:{'lazy' if lazy else 'eager'}")
+                if mm is not None:
+                    sig = classify_history_failure(hr, mm)
+                    ctx.fail(f"{mm['op'][0]}.{mm['op'][1]}(dialect=D{mm['op'][2]}) on classes whose own Config.dialect sets the same options "
+                             f"to other values: result differs from the twin class whose default dialect is D{mm['op'][2]}",
+                             {"entry": "history", "spec": spec, "source": F.family_source(spec), "ops": ops[:mm["index"] + 1],
+                              "observed": mm["observed"], "expected": mm["expected"]}, sig)
+                else:
+                    for d in hr.dirs:
+                        cases.append(hr.cache_case(d))
+                        descr.append({"direction": d, "spec": spec, "ops": ops})
+            finally:
+                hr.close()
+    bad, log = vlib.coq_bad_idx("c13_layered", "DialectCache DialectDeep", "", "Open Scope nat_scope.\n", cases,
+                                "deep_case_ok", "deep_case", shard=250, needs=["theories/DialectDeep.vo"])
+    name = "cache-state-machine-vs-layered-dialect-probes"
+    if bad is None:
+        ctx.correspondence(name, len(cases), -1, log)
+        ctx.not_shown("correspondence " + name, log)
+    else:
+        ctx.correspondence(name, len(cases), len(bad), "; ".join(cases[i][:300] for i in bad[:2]))
+        if bad:
+            ctx.not_shown("correspondence " + name, f"{len(bad)} probes: {cases[bad[0]][:1200]}")
+
+
 UNION_SRC = r'''
 from dataclasses import dataclass, field
 from typing import Optional, Union
@@ -1100,6 +1157,7 @@ def run(ctx: vlib.Ctx):
     history_part(ctx)
     d14_probe(ctx)
     first_call_probes(ctx)
+    layered_probes(ctx)
     union_part(ctx)
     union4_part(ctx)
     DOC.run_all(ctx)
